@@ -1,4 +1,255 @@
 import FqModel.Proto
-/-! driver for C03 (stub — replaced by the property's own driver) -/
-open FqModel.Proto
-def main : IO Unit := run (fun _ _ => "BADOP driver-stub")
+import FqModel.Tree
+/-!
+  driver for C03
+
+  prog line:   `prog <force> <gaps> <off> <len> <arr> <nbits> <hex> [ items ]`  TAB  `T <tree>` | `N` | `P <de|io>`
+               the model (`run`) is compared with the implementation's tree, and `WF` is evaluated on the
+               IMPLEMENTATION's tree (independent of the model).
+  monitor line `mon <top|nested|inL> <partial01> <format> <file> <variant> <force> <tls|->`  TAB  `T <tree>`
+               only `WF` (per buffer-root / per sub-tree line) is evaluated.
+
+  tree  ::= ( name kind start len index R|- buflen err val link tree* )
+  kind  ::= s a u r y g o        err ::= - de io         name ::= f<n> | gap<n>
+-/
+open FqModel FqModel.Tree FqModel.Proto
+
+namespace C03
+
+def parseName (s : String) : Option FName :=
+  if s.startsWith "gap" then (s.drop 3).toString.toNat?.map FName.gap
+  else if s.startsWith "f" then (s.drop 1).toString.toNat?.map FName.f
+  else none
+
+def showName : FName → String
+  | .f n => s!"f{n}"
+  | .gap n => s!"gap{n}"
+
+def parseKind : String → Option Kind
+  | "s" => some .struct | "a" => some .array | "u" => some .uint | "r" => some .raw
+  | "y" => some .synth | "g" => some .gap | "o" => some .other | _ => none
+
+def showKind : Kind → String
+  | .struct => "s" | .array => "a" | .uint => "u" | .raw => "r" | .synth => "y" | .gap => "g" | .other => "o"
+
+def parseErr : String → Option ErrK
+  | "-" => some .none | "de" => some .de | "io" => some .io | _ => none
+
+def showErr : ErrK → String
+  | .none => "-" | .de => "de" | .io => "io"
+
+def parseBool : String → Option Bool
+  | "0" => some false | "1" => some true | _ => none
+
+/-! ### trees -/
+
+partial def dumpT (t : T) (acc : Array String) : Array String :=
+  match t with
+  | .mk i kids =>
+    let acc := acc.push "(" |>.push (showName i.name) |>.push (showKind i.kind) |>.push (toString i.start)
+      |>.push (toString i.len) |>.push (toString i.index) |>.push (if i.isRoot then "R" else "-")
+      |>.push (toString i.bufLen) |>.push (showErr i.err) |>.push (toString i.val) |>.push (if i.link then "1" else "0")
+    let acc := kids.foldl (fun a k => dumpT k a) acc
+    acc.push ")"
+
+def showT (t : T) : String := " ".intercalate (dumpT t #[]).toList
+
+/-- parse one tree at the head of the token list -/
+partial def parseT : List String → Option (T × List String)
+  | "(" :: n :: k :: s :: l :: ix :: r :: bl :: e :: v :: lk :: rest => do
+    let name ← parseName n
+    let kind ← parseKind k
+    let start ← s.toInt?
+    let len ← l.toInt?
+    let index ← ix.toInt?
+    let isRoot ← (match r with | "R" => some true | "-" => some false | _ => none)
+    let bufLen ← bl.toInt?
+    let err ← parseErr e
+    let val ← v.toNat?
+    let link ← parseBool lk
+    let rec kidsLoop (ts : List String) (acc : Array T) : Option (List T × List String) :=
+      match ts with
+      | ")" :: rest => some (acc.toList, rest)
+      | _ => do
+        let (k, rest) ← parseT ts
+        kidsLoop rest (acc.push k)
+    let (kids, rest) ← kidsLoop rest #[]
+    pure (.mk { name, kind, start, len, index, isRoot, bufLen, err, val, link } kids, rest)
+  | _ => none
+
+/-! ### programs -/
+
+mutual
+partial def parseItems (ts : List String) (acc : Array Prog) : Option (List Prog × List String) :=
+  match ts with
+  | "]" :: rest => some (acc.toList, rest)
+  | _ => do
+    let (p, rest) ← parseItem ts
+    parseItems rest (acc.push p)
+
+partial def parseBody : List String → Option (List Prog × List String)
+  | "[" :: rest => parseItems rest #[]
+  | _ => none
+
+partial def parseItem : List String → Option (Prog × List String)
+  | "u" :: n :: w :: rest => do pure (.u (← parseName n) (← w.toNat?), rest)
+  | "raw" :: n :: w :: rest => do pure (.raw (← parseName n) (← w.toInt?), rest)
+  | "syn" :: n :: rest => do pure (.syn (← parseName n), rest)
+  | "st" :: n :: rest => do
+    let name ← parseName n
+    let (b, rest) ← parseBody rest
+    pure (.comp false name b, rest)
+  | "ar" :: n :: rest => do
+    let name ← parseName n
+    let (b, rest) ← parseBody rest
+    pure (.comp true name b, rest)
+  | "fr" :: n :: rest => do
+    let n ← n.toInt?
+    let (b, rest) ← parseBody rest
+    pure (.sub .framed n b, rest)
+  | "li" :: n :: rest => do
+    let n ← n.toInt?
+    let (b, rest) ← parseBody rest
+    pure (.sub .limited n b, rest)
+  | "rg" :: o :: n :: rest => do
+    let o ← o.toInt?
+    let n ← n.toInt?
+    let (b, rest) ← parseBody rest
+    pure (.sub (.range o) n b, rest)
+  | "sa" :: x :: "-" :: rest => do pure (.seek true (← x.toInt?) false [], rest)
+  | "sa" :: x :: rest => do
+    let x ← x.toInt?
+    let (b, rest) ← parseBody rest
+    pure (.seek true x true b, rest)
+  | "sr" :: x :: "-" :: rest => do pure (.seek false (← x.toInt?) false [], rest)
+  | "sr" :: x :: rest => do
+    let x ← x.toInt?
+    let (b, rest) ← parseBody rest
+    pure (.seek false x true b, rest)
+  | "ff" :: o :: n :: a :: rest => do
+    let o ← parseBool o
+    let name ← parseName n
+    let a ← parseBool a
+    let (b, rest) ← parseBody rest
+    pure (.fmt (.rest o) name a b, rest)
+  | "fl" :: w :: o :: n :: a :: rest => do
+    let w ← w.toInt?
+    let o ← parseBool o
+    let name ← parseName n
+    let a ← parseBool a
+    let (b, rest) ← parseBody rest
+    pure (.fmt (.len w o) name a b, rest)
+  | "fg" :: off :: w :: n :: a :: rest => do
+    let off ← off.toNat?
+    let w ← w.toInt?
+    let name ← parseName n
+    let a ← parseBool a
+    let (b, rest) ← parseBody rest
+    pure (.fmt (.range off w) name a b, rest)
+  | "fb" :: n :: w :: a :: rest => do
+    let name ← parseName n
+    let w ← w.toNat?
+    let a ← parseBool a
+    let (b, rest) ← parseBody rest
+    pure (.fmtBuf name w a b, rest)
+  | "sb" :: n :: w :: rest => do
+    let name ← parseName n
+    let w ← w.toNat?
+    let (b, rest) ← parseBody rest
+    pure (.rootFn false name w b, rest)
+  | "ab" :: n :: w :: rest => do
+    let name ← parseName n
+    let w ← w.toNat?
+    let (b, rest) ← parseBody rest
+    pure (.rootFn true name w b, rest)
+  | "rb" :: n :: w :: rest => do pure (.rootBuf (← parseName n) (← w.toNat?), rest)
+  | "fail" :: rest => some (.fail true, rest)
+  | "errf" :: rest => some (.fail false, rest)
+  | "lp" :: w :: m :: rest => do
+    let w ← w.toNat?
+    let m ← m.toNat?
+    let (b, rest) ← parseBody rest
+    pure (.loop w m b, rest)
+  | _ => none
+end
+
+def showOutcome : Outcome → String
+  | .tree t => "T " ++ showT t
+  | .noValue => "N"
+  | .panic e => "P " ++ showErr e
+
+def parseWhere (s : String) : Option Where :=
+  if s == "top" then some .top
+  else if s == "nested" then some .nested
+  else if s.startsWith "in" then (s.drop 2).toString.toInt?.map Where.inBuf
+  else none
+
+def dedup (l : List String) : List String :=
+  l.foldl (fun acc s => if acc.contains s then acc else acc ++ [s]) []
+
+def seekClass : List String := ["outside-empty", "outside-comp", "root-start-outside",
+  "N:outside-empty", "N:outside-comp", "N:root-start-outside"]
+def rawClass : List String := ["N:index@raw", "N:hull@raw", "N:order@raw", "N:index@rawparent", "N:hull@rawparent", "N:order@rawparent"]
+
+/-- verdict of the property predicate on the implementation's tree.
+    `tls`: the tree contains a value of format/tls.  `modelOver`: (prog runs only) the model says that this
+    program started a RangeFn with a negative length, i.e. with the cursor beyond its section.
+    The documented defect classes (known_findings.json) are recognised by their exact signature; anything else
+    that is not WF is a PROPFAIL. -/
+def propVerdict (w : Where) (tls modelOver : Bool) (t : T) : String :=
+  if wfAt w t then "OK"
+  else
+    let rs := dedup (whys (match w with | .nested => true | _ => false) false w t)
+    if rs.isEmpty then "PROPFAIL not-wf (no diagnosis)"
+    else
+      let why := ",".intercalate rs
+      if modelOver && rs.all (seekClass.contains ·) && rs.any (fun s => s.endsWith "outside-empty" || s.endsWith "root-start-outside") then
+        -- every out-of-buffer value is an EMPTY range (or a compound whose correct hull inherits it)
+        s!"KNOWN rangefn-negative-length {why}"
+      else if tls && rs.all (rawClass.contains ·) && rs.any (·.endsWith "@raw") then
+        -- a sub-tree inside a nested buffer root that postProcess never visited, in a tree with a format/tls value
+        s!"KNOWN tls-late-fields {why}"
+      else s!"PROPFAIL {why}"
+
+def bitsOfInput (nbits : Nat) (hex : String) : Option Bits := do
+  let bs ← bytesOfHex hex
+  let bits := bytesToBits bs
+  if bits.length < nbits then none else pure (bits.take nbits)
+
+def step (op obs : String) : String :=
+  match words op with
+  | "prog" :: f :: g :: off :: len :: arr :: nbits :: hex :: rest =>
+    match parseBool f, parseBool g, off.toNat?, len.toNat?, parseBool arr, nbits.toNat?, parseBody rest with
+    | some force, some fillGaps, some off, some len, some arr, some nbits, some (body, []) =>
+      match bitsOfInput nbits hex with
+      | none => "BADOP input"
+      | some input =>
+        let res := FqModel.Tree.run { force, fillGaps, off, len, arr, body } input
+        let m := showOutcome res.out
+        let o := " ".intercalate (words obs)
+        let div := if m == o then "" else s!"DIVERGE model={m}"
+        match words obs with
+        | "T" :: ts =>
+          match parseT ts with
+          | some (t, []) =>
+            -- the RangeFn excuse needs the model to predict exactly this tree
+            let pv := propVerdict .top false (res.over && div.isEmpty) t
+            if pv == "OK" then (if div.isEmpty then "OK" else div)
+            else if div.isEmpty then pv else pv ++ " ;" ++ div
+          | _ => "BADOP tree"
+        | ["N"] => if div.isEmpty then "OK" else div
+        | ["P", _] => if div.isEmpty then "OK" else div
+        | _ => "BADOP obs"
+    | _, _, _, _, _, _, _ => "BADOP prog"
+  | ["mon", w, p, _format, _file, _variant, _force, tls] =>
+    match parseWhere w, parseBool p, (if tls == "tls" then some true else if tls == "-" then some false else none), words obs with
+    | some w, some _p, some tls, "T" :: ts =>
+      match parseT ts with
+      | some (t, []) => propVerdict w tls false t
+      | _ => "BADOP tree"
+    | _, _, _, _ => "BADOP mon"
+  | _ => "BADOP op"
+
+end C03
+
+def main : IO Unit := FqModel.Proto.run C03.step
